@@ -93,6 +93,20 @@ def kinds(t, acc=None):
     return acc
 
 
+def uses_env(t):
+    """does the term read the board size from the environment?"""
+    k = t[0]
+    if k in ("Rooms", "ValuedRooms"):
+        return True
+    if k == "Grid":
+        return t[2] is None or uses_env(t[1])
+    if k in ("OneOf", "Tupl"):
+        return any(uses_env(x) for x in t[1])
+    if k == "Seq":
+        return uses_env(t[1])
+    return False
+
+
 def ends_with_decint(t):
     k = t[0]
     if k == "DecInt":
@@ -480,7 +494,19 @@ def strategies():
             raise AssertionError(t)
 
         term, value = value_term(draw(st.integers(0, 2)), False)
+        # the same combinator OBJECT used again for a board of another size (this is how the module-level
+        # *_COMBINATOR constants of the puzzle modules are used)
+        second = None
+        if uses_env(term) and draw(st.integers(0, 2)) == 0:
+            H1, W1 = H, W
+            H = draw(st.integers(1, 5))
+            W = draw(st.integers(1, 5))
+            if (H, W) == (H1, W1):
+                W = W1 + 1
+            second = dict(height=H, width=W, value=value_for(term))
+            H, W = H1, W1
+            flags.add("combinator-reused-for-another-size")
         junk = draw(st.one_of(st.just(""), st.text(alphabet="0123456789abcdefghijklmnopqrstuvwxyz-+./_", max_size=6)))
-        return dict(term=term, value=value, height=H, width=W, junk=junk, flags=sorted(flags))
+        return dict(term=term, value=value, height=H, width=W, junk=junk, flags=sorted(flags), second=second)
 
     return dict(case=case())
